@@ -124,3 +124,132 @@ func main() {
 	}
 	return rs, nil
 }
+
+// C05: bounded stand-in for the order of the resolved target (SortStates uses
+// sort.SliceStable with opaque comparators, TopologicalSort is a recursive
+// closure): in the target of Add{A,B,C,D}, a state comes after every state it
+// Requires and after every state it lists in After, for all 4-state schemas with
+// at most one Require and one After per state whose constraints are acyclic.
+// Returns the descriptors of the failing schemas.
+func runBoundedOrder(opts *RunOpts) (failing []string, total int, err error) {
+	src := `package main
+
+import (
+	"context"
+	"encoding/json"
+	"fmt"
+	"os"
+	"strings"
+
+	am "` + machinePkg + `"
+)
+
+func main() {
+	names := am.S{"A", "B", "C", "D"}
+	choice := func(code int, self int) am.S {
+		if code == 0 {
+			return nil
+		}
+		k := code - 1
+		if k >= self {
+			k++
+		}
+		return am.S{names[k]}
+	}
+	var failing []string
+	total := 0
+	for rc := 0; rc < 256; rc++ {
+		for ac := 0; ac < 256; ac++ {
+			schema := am.Schema{}
+			before := map[string][]string{} // x -> states that must come before x
+			c, a := rc, ac
+			for i, n := range names {
+				st := am.State{Require: choice(c%4, i), After: choice(a%4, i)}
+				c /= 4
+				a /= 4
+				schema[n] = st
+				before[n] = append(append([]string{}, st.Require...), st.After...)
+			}
+			// acyclic constraints only
+			cyc := false
+			var visit func(n string, path map[string]bool)
+			visit = func(n string, path map[string]bool) {
+				if path[n] {
+					cyc = true
+					return
+				}
+				path[n] = true
+				for _, b := range before[n] {
+					visit(b, path)
+				}
+				delete(path, n)
+			}
+			for _, n := range names {
+				visit(n, map[string]bool{})
+			}
+			if cyc {
+				continue
+			}
+			total++
+			ctx, cancel := context.WithCancel(context.Background())
+			m := am.New(ctx, schema, &am.Opts{Id: "verif-c05"})
+			m.Add(names, nil)
+			act := m.ActiveStates(nil)
+			cancel()
+			pos := map[string]int{}
+			for i, s := range act {
+				pos[s] = i
+			}
+			bad := ""
+			for _, x := range names {
+				for _, y := range before[x] {
+					px, okx := pos[x]
+					py, oky := pos[y]
+					if okx && oky && py > px {
+						bad = x + " before " + y
+					}
+				}
+			}
+			if bad != "" {
+				var desc []string
+				for _, n := range names {
+					desc = append(desc, fmt.Sprintf("%s{Require:%v After:%v}", n, schema[n].Require, schema[n].After))
+				}
+				failing = append(failing, strings.Join(desc, " ")+" => "+strings.Join(act, ",")+" ("+bad+")")
+			}
+		}
+	}
+	json.NewEncoder(os.Stdout).Encode(map[string]any{"failing": failing, "total": total})
+}
+`
+	tmp, e := os.MkdirTemp("", "gocv-c05b-")
+	if e != nil {
+		return nil, 0, e
+	}
+	defer os.RemoveAll(tmp)
+	sf := filepath.Join(tmp, "main.go")
+	os.WriteFile(sf, []byte(src), 0o644)
+	virt := filepath.Join(opts.Repo, "internal", "zz_verif_c05bounded", "main.go")
+	ov, _ := json.Marshal(map[string]any{"Replace": map[string]string{virt: sf}})
+	ovf := filepath.Join(tmp, "ov.json")
+	os.WriteFile(ovf, ov, 0o644)
+	ctx, cancel := context.WithTimeout(context.Background(), 10*time.Minute)
+	defer cancel()
+	cmd := exec.CommandContext(ctx, "go", "run", "-overlay", ovf, "./internal/zz_verif_c05bounded")
+	cmd.Dir = opts.Repo
+	cmd.Env = append(os.Environ(), "GOFLAGS=-mod=mod", "GOPROXY=off", "AM_LOG=0")
+	var outb, errb bytes.Buffer
+	cmd.Stdout = &outb
+	cmd.Stderr = &errb
+	if e := cmd.Run(); e != nil {
+		return nil, 0, fmt.Errorf("bounded order stand-in failed: %v: %s", e, firstLines(errb.String(), 12))
+	}
+	var raw struct {
+		Failing []string
+		Total   int
+	}
+	if e := json.Unmarshal(outb.Bytes(), &raw); e != nil {
+		return nil, 0, fmt.Errorf("bounded order output: %v (%s)", e, firstLines(outb.String(), 3))
+	}
+	return raw.Failing, raw.Total, nil
+}
